@@ -68,3 +68,54 @@ func TestFixed_D5(t *testing.T) {
 	// nil pointer dereference before 0b22061
 	_ = Spec(doc, strfmt.Default)
 }
+
+// D8 (C11): a child validator redeems itself in its own deferred call; when its Validate panics, the parent's deferred
+// redeemChildren still finds the child in its slot and redeems it a second time: the pool then holds the same object
+// twice and hands it out to two borrowers.
+type kfPanicRegistry struct{ strfmt.Registry }
+
+func (r kfPanicRegistry) ContainsName(name string) bool { return name == "boom" || r.Registry.ContainsName(name) }
+func (r kfPanicRegistry) Validates(name, data string) bool {
+	if name == "boom" {
+		panic("format checker panics")
+	}
+	return r.Registry.Validates(name, data)
+}
+
+func TestKF_D8_double_redeem(t *testing.T) {
+	var sch spec.Schema
+	if err := json.Unmarshal([]byte(`{"type":"string","format":"boom"}`), &sch); err != nil {
+		t.Fatal(err)
+	}
+	// drain what earlier tests left in the pool of format validators
+	for i := 0; i < 64; i++ {
+		_ = pools.poolOfFormatValidators.BorrowValidator()
+	}
+	func() {
+		defer func() { _ = recover() }()
+		_ = AgainstSchema(&sch, "x", kfPanicRegistry{strfmt.Default})
+	}()
+	seen := map[*formatValidator]bool{}
+	for i := 0; i < 8; i++ {
+		v := pools.poolOfFormatValidators.BorrowValidator()
+		if seen[v] {
+			t.Fatalf("the pool handed out the same *formatValidator twice after a recovered panic: it was redeemed twice")
+		}
+		seen[v] = true
+	}
+}
+
+// D12 (C06): formatValidator.Validate asserts val.(string) without a check; a json.Number has reflect kind String,
+// so the format validator applies to it and the assertion panics.
+func TestFixed_D12_format_number(t *testing.T) {
+	var sch spec.Schema
+	if err := json.Unmarshal([]byte(`{"type":"string","format":"date"}`), &sch); err != nil {
+		t.Fatal(err)
+	}
+	defer func() {
+		if r := recover(); r != nil {
+			t.Fatalf("AgainstSchema panicked on a json.Number instance: %v", r)
+		}
+	}()
+	_ = AgainstSchema(&sch, json.Number("1"), strfmt.Default)
+}
